@@ -1,4 +1,5 @@
 import Scalibr.Spec.Upgrade
+import Scalibr.Model.OverrideMulti
 namespace Scalibr.Upgrade
 
 theorem allows_major_all (lvl d : Nat) (h : allows lvl dMajor = true) : allows lvl d = true := by
@@ -241,6 +242,29 @@ theorem above_lt (vs : List Nat) (vk b : Nat) (hb : b ∈ vs) (hlt : vk < b) : a
         · simp [h1, h2]; exact ih hb
 
 end Scalibr.Override
+
+namespace Scalibr.OverrideMulti
+open Scalibr.Upgrade Scalibr.Override
+
+theorem pickP_spec (u : MU) (p vk b : Nat) (h : pickP u p vk = some b) :
+    u.level p ≠ lNone ∧ b ∈ versionsGreater (u.vs p) vk ∧ allows (u.level p) (u.diff p vk b) = true ∧
+    ((vulnsAt u p vk).filter (u.aff · p b)).length < (vulnsAt u p vk).length := by
+  unfold pickP at h
+  split at h
+  · cases h
+  · cases hp : pick (u.level p) (cands u p vk) (vulnsAt u p vk).length with
+    | none => simp [hp] at h
+    | some c =>
+      simp only [hp, Option.map, Option.some.injEq] at h
+      obtain ⟨h1, h2, h3, h4⟩ := pick_spec _ _ _ _ hp
+      unfold cands at h2
+      simp only [List.mem_map] at h2
+      obtain ⟨r, hr, rfl⟩ := h2
+      simp only at h h3 h4
+      subst h
+      exact ⟨h1, hr, h3, h4⟩
+
+end Scalibr.OverrideMulti
 
 namespace Scalibr.Suggest
 open Scalibr.Upgrade
